@@ -57,16 +57,14 @@ def configs(tier):
                         c = dict(base)
                         c[k1], c[k2] = v1, v2
                         out.append(c)
-    if vlib.deep(tier):   # deviation bound 3: every triple of deviations
-        for i, k1 in enumerate(keys):
-            for j, k2 in enumerate(keys[i + 1:], i + 1):
-                for k3 in keys[j + 1:]:
-                    for v1 in AXES[k1][1:]:
-                        for v2 in AXES[k2][1:]:
-                            for v3 in AXES[k3][1:]:
-                                c = dict(base)
-                                c[k1], c[k2], c[k3] = v1, v2, v3
-                                out.append(c)
+    import itertools
+    for order in ((3, 4) if vlib.deep(tier) else (3,)):   # deviation bound 3 (thorough: 4): every triple (quadruple) of deviations
+        for ks in itertools.combinations(keys, order):
+            for vs in itertools.product(*[AXES[k][1:] for k in ks]):
+                c = dict(base)
+                for k, v in zip(ks, vs):
+                    c[k] = v
+                out.append(c)
     keep = []
     for c in out:
         if c["start"] != "builtin" and sum(1 for x in c["fill"] if x > 0) > 1:
